@@ -90,6 +90,13 @@ def loop_count(loop, env=None):
         # range(k, b): b - k iterations, the variable runs from k
         lo, hi = it.args
         return ast.BinOp(left=hi, op=ast.Sub(), right=lo), var, start + lo.value
+    if isinstance(it, ast.Call) and call_name(it) in ("range", "trange", "tqdm.trange") and len(it.args) == 2 and start == 0 \
+            and not any(isinstance(x, ast.Call) for x in ast.walk(it.args[0])):
+        # range(lo, hi) with a symbolic lower bound: hi - lo iterations, the variable is (0-based index + lo)
+        lo, hi = it.args
+        if env:
+            lo, hi = inline(lo, env), inline(hi, env)
+        return ast.BinOp(left=hi, op=ast.Sub(), right=lo), var, lo
     if isinstance(it, ast.Call) and call_name(it) in ("range", "trange", "tqdm.trange", "tqdm.tqdm") and len(it.args) == 1:
         a = it.args[0]
         if call_name(it) == "tqdm.tqdm":
@@ -229,14 +236,14 @@ def r_all(ctx):
             continue
         # burn-in skip in the merged form: `i < n_burnin` negated / `i >= n_burnin`
         b = N.b(t, neg=negated, integer=True)
-        if b == N.b(parse_expr(f"{iv} >= n_burnin + {start}"), integer=True):        # the loop variable is (0-based index + start)
+        if b == N.b(parse_expr(f"{iv} >= n_burnin + ({start if isinstance(start, int) else U(start)})"), integer=True):        # the loop variable is (0-based index + start)
             burn_skip_ok = True
             continue
         raise AnalysisError(f"sampling.sample: recording is guarded by an unrecognised condition `{U(t)}`")
     ctx.need(len(mods) == 1, f"sampling.sample: expected exactly one modular thinning predicate, found {len(mods)}")
     a, b, t = mods[0]
     thin = N.n(parse_expr("thin"))
-    a = a + Poly.const(start)          # the loop variable is (0-based index + start)
+    a = a + (Poly.const(start) if isinstance(start, int) else N.n(start))          # the loop variable is (0-based index + start)
     cong = b - a + Poly.const(1) + offset
     ok = t == thin and (cong.is_zero() or cong == thin or cong == -thin) and burn_skip_ok
     ctx.check("R3", f"{f.site()}::thinning-congruence", ok,
